@@ -18,13 +18,17 @@ import (
 	"bytes"
 	"encoding/json"
 	"fmt"
+	"io"
 	"os"
 	"os/exec"
 	"path/filepath"
+	"sort"
 	"strings"
 	"sync"
 	"syscall"
 	"time"
+
+	"github.com/trzsz/trzsz-go/trzsz"
 )
 
 func init() { groups["handshake"] = genHandshake }
@@ -260,6 +264,26 @@ func genHandshake(c *ctx) {
 			add(s, "CFG", "escape_chars", c12Val{"elem:wide", `[["中","î1"]]`})
 		}
 	}
+	relayCases := c12RelayCases(c.thorough())
+	parallelDo(len(relayCases), 16, func(i int) { relayCases[i].run(work, i) })
+	for _, rc := range relayCases {
+		r := rc.result
+		c.note(true, fmt.Sprintf("relay handshake %s => crashed=%q trigger=%v passes-bytes-again=%v %s", rc.name, r.Crashed, r.ActSeen, r.ProbeOK, r.Note))
+		c.count("relay-handshake")
+		detail := fmt.Sprintf("relay between a scripted client and server; trigger sent, then client lines %q, server lines %q :: crashed=%q forwards-again=%v note=%s stderr=%q",
+			rc.client, rc.server, r.Crashed, r.ProbeOK, r.Note, r.StderrHead)
+		if len(detail) > 3000 {
+			detail = detail[:3000]
+		}
+		switch {
+		case r.Crashed != "":
+			c.violate("relay-handshake-crash:"+rc.name, "a line received during the relay's handshake crashed the relay: "+r.Crashed, detail)
+		case !r.ActSeen:
+			c.violate("relay-handshake-setup:"+rc.name, "the relay did not forward the trigger (harness)", detail)
+		case !r.ProbeOK:
+			c.violate("relay-handshake-stuck:"+rc.name, "after a hostile handshake line the relay no longer passes bytes in both directions", detail)
+		}
+	}
 	parallelDo(len(cases), 16, func(i int) { cases[i].run(work, i, src) })
 	for _, h := range cases {
 		r := h.result
@@ -284,4 +308,240 @@ func genHandshake(c *ctx) {
 			c.violate("handshake-hang:"+h.key4(), "with a hostile value in the handshake the two sides did not end within the deadline", detail)
 		}
 	}
+}
+
+// ---- the acknowledgement goroutine in a child (group guards) ----
+
+type c12EvoJob struct {
+	MaxBuf int64   `json:"maxbuf"`
+	Lens   []int64 `json:"lens"`
+	Ms     []int64 `json:"ms"`
+}
+
+type c12EvoResult struct {
+	Used      []int64 `json:"used"`
+	Sizes     []int64 `json:"sizes"`
+	MakePanic string  `json:"make_panic"`
+	Err       string  `json:"err"`
+}
+
+// c12ChildEvo prints "C12EVO <index> <json>" per case, in order; if the process dies the parent
+// knows from the last line which case was running.
+func c12ChildEvo(job *c12Job) {
+	lim := syscall.Rlimit{Cur: 12 << 30, Max: 12 << 30}
+	_ = syscall.Setrlimit(syscall.RLIMIT_AS, &lim)
+	for i, e := range job.Evo {
+		var r c12EvoResult
+		r.Used, r.Sizes, r.MakePanic, r.Err = trzsz.VerifBufsizeEvolution(e.MaxBuf, e.Lens, e.Ms)
+		js, _ := json.Marshal(r)
+		fmt.Printf("C12EVO %d %s\n", i, js)
+	}
+	fmt.Println("C12EVO done")
+}
+
+// c12RunEvoChild runs the cases in one child. It returns the results of the cases that completed, the
+// index of the case during which the child died (-1: none) and the crash text.
+func c12RunEvoChild(work string, cases []c12EvoJob) (results []c12EvoResult, crashedAt int, crashText string) {
+	dir, _ := os.MkdirTemp(work, "evo")
+	defer os.RemoveAll(dir)
+	js, _ := json.Marshal(c12Job{Role: "bufevo", Evo: cases})
+	jobPath := filepath.Join(dir, "job.json")
+	os.WriteFile(jobPath, js, 0644)
+	exe, _ := os.Executable()
+	cmd := exec.Command(exe, "c12-child", jobPath)
+	var stdout bytes.Buffer
+	stderr := &c12CapBuf{cap: 1 << 20}
+	cmd.Stdout = &stdout
+	cmd.Stderr = stderr
+	done := make(chan struct{})
+	if err := cmd.Start(); err != nil {
+		return nil, 0, "start: " + err.Error()
+	}
+	go func() { cmd.Wait(); close(done) }()
+	select {
+	case <-done:
+	case <-time.After(10 * time.Minute):
+		cmd.Process.Kill()
+		<-done
+	}
+	finished := false
+	for _, l := range strings.Split(stdout.String(), "\n") {
+		if l == "C12EVO done" {
+			finished = true
+		}
+		if !strings.HasPrefix(l, "C12EVO ") {
+			continue
+		}
+		f := strings.SplitN(l, " ", 3)
+		if len(f) == 3 {
+			var r c12EvoResult
+			if json.Unmarshal([]byte(f[2]), &r) == nil {
+				results = append(results, r)
+			}
+		}
+	}
+	if finished {
+		return results, -1, ""
+	}
+	eb := stderr.Bytes()
+	crashText = "child ended without finishing"
+	if m := c12CrashRe.Find(eb); m != nil {
+		crashText = string(m)
+	}
+	return results, len(results), crashText + " :: " + c12Tail(eb, 500)
+}
+
+// ---- a real relay during its handshake, hostile lines from either side (group handshake) ----
+
+type c12PipeEnd struct {
+	mu sync.Mutex
+	b  bytes.Buffer
+}
+
+func (p *c12PipeEnd) Write(b []byte) (int, error) {
+	p.mu.Lock()
+	defer p.mu.Unlock()
+	if p.b.Len() < 8<<20 {
+		p.b.Write(b)
+	}
+	return len(b), nil
+}
+func (p *c12PipeEnd) Close() error { return nil }
+func (p *c12PipeEnd) Contains(x []byte) bool {
+	p.mu.Lock()
+	defer p.mu.Unlock()
+	return bytes.Contains(p.b.Bytes(), x)
+}
+
+func c12ChildRelay(job *c12Job) c12Result {
+	var res c12Result
+	os.Unsetenv("TMUX")
+	os.Unsetenv("TMUX_PANE")
+	lim := syscall.Rlimit{Cur: c12ASLimitBytes, Max: c12ASLimitBytes}
+	_ = syscall.Setrlimit(syscall.RLIMIT_AS, &lim)
+	cliR, cliW := io.Pipe() // client -> relay
+	svrR, svrW := io.Pipe() // server -> relay
+	toClient, toServer := &c12PipeEnd{}, &c12PipeEnd{}
+	_ = trzsz.NewTrzszRelay(cliR, toClient, toServer, svrR, trzsz.TrzszOptions{})
+	id := "1727712345600"
+	if job.WinServer {
+		id = "1727712345610"
+	}
+	go svrW.Write([]byte("\x1b7\x07::TRZSZ:TRANSFER:R:1.1.8:" + id + ":0\r\n"))
+	res.ActSeen = c12WaitFor(3*time.Second, func() bool { return toClient.Contains([]byte("::TRZSZ:TRANSFER:")) })
+	time.Sleep(20 * time.Millisecond)
+	for _, l := range job.RelayClient {
+		go cliW.Write(l)
+		time.Sleep(5 * time.Millisecond)
+	}
+	if len(job.RelayServer) > 0 {
+		c12WaitFor(2*time.Second, func() bool { return toServer.Contains([]byte("#ACT:")) })
+		for _, l := range job.RelayServer {
+			go svrW.Write(l)
+			time.Sleep(5 * time.Millisecond)
+		}
+	}
+	// the handshake ends (confirmed or failed) and the relay passes bytes again, in both directions
+	okBoth := func() bool {
+		return toClient.Contains([]byte("c12-relay-probe-s2c")) && toServer.Contains([]byte("c12-relay-probe-c2s"))
+	}
+	deadline := time.Now().Add(4 * time.Second)
+	for time.Now().Before(deadline) && !okBoth() {
+		// "!\n" ends a line for the plain, the junk-tolerant and the Windows-console reader alike, so a read
+		// that is still waiting for the rest of a line completes (and fails) with the first probe
+		go svrW.Write([]byte("c12-relay-probe-s2c!\n"))
+		go cliW.Write([]byte("c12-relay-probe-c2s!\n"))
+		time.Sleep(200 * time.Millisecond)
+	}
+	res.ProbeOK = okBoth()
+	res.Exited = res.ProbeOK
+	res.Hung = !res.ProbeOK
+	if toClient.Contains([]byte("#FAIL:")) {
+		res.Note = "FAIL sent to the client"
+	}
+	res.MaxRSSKB = c12SelfHWM()
+	return res
+}
+
+type c12RelayCase struct {
+	name           string
+	client, server [][]byte
+	win            bool
+	result         c12Result
+}
+
+func c12RelayCases(thorough bool) []*c12RelayCase {
+	goodACT := []byte("#ACT:" + c12B64z([]byte(`{"lang":"go","version":"1.1.8","confirm":true,"newline":"\n","protocol":4,"binary":true,"support_dir":true}`)) + "\n")
+	goodCFG := []byte("#CFG:" + c12B64z([]byte(`{"lang":"go","bufsize":10485760,"timeout":20,"protocol":4}`)) + "\n")
+	var out []*c12RelayCase
+	lines := map[string]string{
+		"colon-first": ":wq\n", "colon-only": ":\n", "empty": "\n", "no-colon": "ls -l\n", "hash-only": "#\n", "type-only": "#ACT\n", "empty-payload": "#ACT:\n",
+		"bad-b64": "#ACT:!!!\n", "not-zlib": "#ACT:QUJD\n", "json-array": "#ACT:" + c12B64z([]byte("[]")) + "\n", "json-types": "#ACT:" + c12B64z([]byte(`{"protocol":"x","newline":7}`)) + "\n",
+		"json-deep": "#ACT:" + c12B64z([]byte(strings.Repeat("[", 20000))) + "\n", "other-type": "#CFG:" + c12B64z([]byte("{}")) + "\n", "long-1MB": strings.Repeat("A", 1<<20) + "\n",
+		"colons-1000": strings.Repeat(":", 1000) + "\n", "crlf": ":wq\r\n", "bang": ":wq!\n", "ctrl-c": "\x03", "nul": "\x00:\x00\n", "fail-line": "#FAIL:" + c12B64z([]byte("boom")) + "\n",
+	}
+	names := make([]string, 0, len(lines))
+	for k := range lines {
+		names = append(names, k)
+	}
+	sort.Strings(names)
+	for _, k := range names {
+		for _, win := range []bool{false, true} {
+			if !thorough && win && k != "colon-first" && k != "bang" && k != "empty" {
+				continue
+			}
+			out = append(out, &c12RelayCase{name: fmt.Sprintf("act:%s:win=%v", k, win), client: [][]byte{[]byte(lines[k])}, win: win})
+			srv := strings.Replace(lines[k], "#ACT", "#CFG", 1)
+			out = append(out, &c12RelayCase{name: fmt.Sprintf("cfg:%s:win=%v", k, win), client: [][]byte{goodACT}, server: [][]byte{[]byte(srv)}, win: win})
+		}
+	}
+	out = append(out, &c12RelayCase{name: "good", client: [][]byte{goodACT}, server: [][]byte{goodCFG}})
+	out = append(out, &c12RelayCase{name: "act:colon-first-split", client: [][]byte{[]byte(":"), []byte("wq"), []byte("\n")}})
+	return out
+}
+
+func (rc *c12RelayCase) run(work string, id int) {
+	dir := filepath.Join(work, fmt.Sprintf("r%d", id))
+	os.MkdirAll(dir, 0755)
+	defer os.RemoveAll(dir)
+	js, _ := json.Marshal(c12Job{Role: "relay", RelayClient: rc.client, RelayServer: rc.server, WinServer: rc.win})
+	jobPath := filepath.Join(dir, "job.json")
+	os.WriteFile(jobPath, js, 0644)
+	exe, _ := os.Executable()
+	cmd := exec.Command(exe, "c12-child", jobPath)
+	var stdout bytes.Buffer
+	stderr := &c12CapBuf{cap: 1 << 20}
+	cmd.Stdout = &stdout
+	cmd.Stderr = stderr
+	var res c12Result
+	if err := cmd.Start(); err != nil {
+		res.Note = "start: " + err.Error()
+		rc.result = res
+		return
+	}
+	done := make(chan struct{})
+	go func() { cmd.Wait(); close(done) }()
+	select {
+	case <-done:
+	case <-time.After(30 * time.Second):
+		cmd.Process.Kill()
+		<-done
+		res.Hung = true
+	}
+	if i := strings.LastIndex(stdout.String(), "C12RESULT "); i >= 0 {
+		line := stdout.String()[i+10:]
+		if nl := strings.IndexByte(line, '\n'); nl >= 0 {
+			line = line[:nl]
+		}
+		_ = json.Unmarshal([]byte(line), &res)
+	} else {
+		eb := stderr.Bytes()
+		res.StderrHead = c12Tail(eb, 700)
+		if m := c12CrashRe.Find(eb); m != nil {
+			res.Crashed = "relay: " + string(m)
+		} else if !res.Hung {
+			res.Crashed = "relay child ended without a result"
+		}
+	}
+	rc.result = res
 }
